@@ -58,8 +58,8 @@ func actionOf(ral *csrc.Ralph, src, fn string) (csrc.Value, error) {
 func main() {
 	r = vlib.Start("C15", "exploration")
 	rng := r.Rand("requests")
-	corePath := "/repo/alephium/contracts/governance.ral"
-	tbPath := "/repo/alephium/contracts/token_bridge/token_bridge_governance.ral"
+	corePath := vlib.Repo() + "/alephium/contracts/governance.ral"
+	tbPath := vlib.Repo() + "/alephium/contracts/token_bridge/token_bridge_governance.ral"
 	core, err1 := csrc.LoadRalph(corePath)
 	tb, err2 := csrc.LoadRalph(tbPath)
 	if err1 != nil || err2 != nil {
